@@ -109,9 +109,25 @@ func genC14(c *Ctx) {
 			c.AddCase(64, "parseItag", o, B(h))
 		}
 		// parseFragment bodies
-		body := []byte(fmt.Sprintf("%05d,%05d,%s,", c.R.Intn(9), c.R.Intn(9), c.genPayload(c.R.Intn(8))))
-		if c.R.Chance(1, 2) {
+		pay := c.genPayload(c.R.Intn(8))
+		body := []byte(fmt.Sprintf("%05d,%05d,%s,", c.R.Intn(9), c.R.Intn(9), pay))
+		switch c.R.Intn(12) {
+		case 0, 1, 2:
 			body, _ = c.mutate(body)
+		case 3: // a separator inside the payload
+			body = []byte(fmt.Sprintf("%05d,%05d,%s,%s,", 1+c.R.Intn(3), 3, pay, c.genPayload(1+c.R.Intn(4))))
+		case 4: // data after the terminating separator
+			body = append(body, c.genPayload(1+c.R.Intn(5))...)
+		case 5: // several terminating separators
+			body = append(body, ',')
+		case 6: // no terminating separator
+			body = body[:len(body)-1]
+		case 7: // empty fields
+			body = []byte(fmt.Sprintf(",%05d,%s,", c.R.Intn(9), pay))
+		case 8:
+			body = []byte(fmt.Sprintf("%05d,,%s,", c.R.Intn(9), pay))
+		case 9: // empty payload
+			body = []byte(fmt.Sprintf("%05d,%05d,,", 1+c.R.Intn(3), 3))
 		}
 		{
 			d, ix, l, ok := otr3.VerifParseFragment(body)
@@ -124,6 +140,87 @@ func genC14(c *Ctx) {
 	}
 	c14Fragment(c, n)
 	c14Arrivals(c, n)
+	c14Special(c)
+}
+
+// fragments of messages that are not data or key-exchange messages (error message, version 1 key exchange, query,
+// tagged plaintext), followed by fragments that must be ignored: each unit is handled exactly once, an ignored
+// fragment yields nothing
+func c14Special(c *Ctx) {
+	units := []string{"?OTR Error: something went wrong", "?OTR:AAEKAAAAxx.", "?OTRv23?", "just text", "?OTR Error:"}
+	for _, v := range []int{2, 3} {
+		for ui, u := range units {
+			for np := 1; np <= 3; np++ {
+				for _, pol := range []int{polV2 | polV3, polV2 | polV3 | polErrStart} {
+					p := newParty(1, pol, c.R.U64())
+					p.c.SetOurKeys([]otr3.PrivateKey{partyKeys[1]})
+					var trace []string
+					feed := func(m []byte) (plain []byte, outs int, evs int, panicked bool) {
+						p.events = nil
+						o := guard(func() Val {
+							pl, out, _ := p.c.Receive(m)
+							plain, outs = pl, len(out)
+							return VNone{}
+						})
+						_, panicked = o.(VPanic)
+						trace = append(trace, fmt.Sprintf("%q -> plain=%q outs=%d events=%v", m, plain, outs, p.events))
+						return plain, outs, len(p.events), panicked
+					}
+					// split u into np pieces
+					var pieces [][]byte
+					for i := 0; i < np; i++ {
+						lo, hi := i*len(u)/np, (i+1)*len(u)/np
+						if v == 2 {
+							pieces = append(pieces, []byte(fmt.Sprintf("?OTR,%05d,%05d,%s,", i+1, np, u[lo:hi])))
+						} else {
+							pieces = append(pieces, []byte(fmt.Sprintf("?OTR|%08x|%08x,%05d,%05d,%s,", 0x1234, 0, i+1, np, u[lo:hi])))
+						}
+					}
+					unitEvents := map[int]bool{}
+					unitOuts := 0
+					for i, pc := range pieces {
+						_, outs, evs, pan := feed(pc)
+						if pan {
+							c.Violate("panic", "Receive(fragment)", "panic while receiving a fragment", trace)
+						}
+						if i < len(pieces)-1 && (outs > 0 || evs > 0) {
+							c.Violate("early-fragment-effect", fmt.Sprintf("unit=%d", ui), "a piece other than the last one had an effect", trace)
+						}
+						for _, e := range p.events {
+							unitEvents[e] = true
+						}
+						unitOuts += outs
+					}
+					// fragments that must be ignored (the one with a malformed tag may be answered with an error message and the
+					// malformed-message event, one for another instance raises that event): whatever the completed unit
+					// caused must not happen again
+					ign := [][]byte{
+						[]byte("?OTR,00000,00002,xx,"), []byte("?OTR,00003,00002,xx,"), []byte("?OTR,00001,00000,xx,"),
+						[]byte("?OTR,garbage"), []byte("?OTR|00000005|00000000,00001,00002,xx,"),
+						[]byte("?OTR|0000abcd|0000ef01,00002,00002,xx,"), []byte("?OTR,00002,00002,xx,"),
+					}
+					for gi, g := range ign {
+						plain, outs, _, pan := feed(g)
+						if pan {
+							c.Violate("panic", "Receive(fragment)", "panic while receiving a fragment", trace)
+						}
+						again := plain != nil || (unitOuts > 0 && outs > 0 && gi != 4)
+						for _, e := range p.events {
+							if unitEvents[e] {
+								again = true
+							}
+						}
+						if again {
+							c.Violate("completed-message-handled-again", fmt.Sprintf("unit=%d,v=%d", ui, v), "a fragment that does not complete anything produced the effects of the previous message again", trace)
+							break
+						}
+					}
+					c.Count(fmt.Sprintf("special-unit:%d", ui))
+					c.Rep.Evaluations++
+				}
+			}
+		}
+	}
 }
 
 // sizes near the header, powers of two, and lengths incl. > 65535
